@@ -24,7 +24,7 @@ func TestVerifC16SimOTKeys(t *testing.T) {
 		g    group.Group
 	}
 	gs := []vc16Group{{"ristretto255", group.Ristretto255}, {"P256", group.P256}, {"P384", group.P384}, {"P521", group.P521}}
-	per := lib.Scale(60, 1500)
+	per := lib.Scale(60, 300)
 	lib.Par(len(gs)*per, func(ci int) {
 		gg := gs[ci%len(gs)]
 		i := ci / len(gs)
